@@ -19,13 +19,13 @@ import (
 func init() { suites["c01"] = c01 }
 
 type pmOp struct {
-	name                  string
-	loc, style            string
-	explode               bool
-	shape, elem           string
-	required              bool
-	def                   any // default (prim only)
-	goField               string
+	name        string
+	loc, style  string
+	explode     bool
+	shape, elem string
+	required    bool
+	def         any // default (prim only)
+	goField     string
 }
 
 func elemSchema(elem string) map[string]any {
